@@ -14,6 +14,8 @@ package main
 //       CTrace case and must be accepted by the Coq model.
 // (ii') no-serialisation: a family of pairwise compatible holders must all be inside their
 //       critical sections at the same time (barrier inside the critical section, timeout = Fail).
+// (ii-b..e) see c15_audit.go: bystanders of a parked holder, crowds, critical name shapes (look-alikes,
+//       long common prefixes, large maps) in the order probe and in the stress, first use of a name.
 // (iii) pip:run lock-list parsing (markBoolMapForNamespace through the pip:run command with a
 //       recording runner), differential against the pure Coq model.
 
@@ -341,15 +343,22 @@ func runC15Child(o *Out, rng *RNG, tier string, replay string) {
 	o.CaseType = "case"
 	o.CheckFn = "check"
 	o.ShardSize = 150
-	o.Rule = "(i) acquisition-order probes of SharedMutex.Lock on random maps of 1..4 names from a 17-name pool (order observed black-box " +
-		"vs the model's byte-wise sort); (ii) stress rounds of 2..12 concurrent holders over 4 names with random maps, modes, hold times and " +
-		"start jitter — exclusion oracle on the recorded intervals, watchdog for deadlock, trace accepted by the Coq model; (ii') families of " +
-		"pairwise compatible holders must all be inside at once; (iii) pip:run rlock/wlock parsing vs the pure model. " +
+	o.Rule = "(i) acquisition-order probes of SharedMutex.Lock on random maps of 1..4 names from a 25-name pool, on every look-alike pair of a name, " +
+		"on names with a common prefix of 9..300 bytes and on maps of 9, 17, 24 and 40 names (order observed black-box vs the model's byte-wise sort); " +
+		"(ii) stress rounds of 2..12 concurrent holders over 4 names with random maps, modes, hold times and start jitter, plus rounds on look-alike / " +
+		"long-prefix pools, on pools of 10..24 names and with 24..48 holders - exclusion oracle on the recorded intervals, watchdog for deadlock, trace " +
+		"accepted by the Coq model; (ii') families of pairwise compatible holders (2..6, and crowds of 40..100) must all be inside at once; look-alike " +
+		"names are different resources; (ii-b) holders compatible with everybody get in and out while an incompatible holder is parked inside Lock; " +
+		"(ii-e) the first requests for a new name exclude each other; (ii-r) the real pipeline runner: bodies respect the lock maps (also against a " +
+		"direct holder of the shared mutex service), compatible tasks run together, a bystander task is not held up by a parked one, the locks of a " +
+		"FAILED body are given back; (iii) pip:run rlock/wlock parsing vs the pure model, and the number of read / write entries vs what was asked for. " +
 		"Non-trivial: order probe with >= 2 names; stress round in which at least two holders share a name; distinct by maps(+trace)."
 
 	nOrder, nStress, nHot, nBarrier, nParse := 120, 260, 60, 80, 250
+	nShaped, nBystander, nCrowd, nFirstUse := 120, 90, 3, 1500
 	if tier == "thorough" {
 		nOrder, nStress, nHot, nBarrier, nParse = 1200, 12000, 3000, 1500, 6000
+		nShaped, nBystander, nCrowd, nFirstUse = 4000, 2000, 40, 40000
 	}
 
 	// ---------- (i) acquisition order
@@ -374,6 +383,35 @@ func runC15Child(o *Out, rng *RNG, tier string, replay string) {
 			m = c15RandMap(rng, pool, 4, 50)
 		}
 		jobs[i] = &orderJob{m: m, rows: c15Rows(m)}
+	}
+	// the critical shapes, every run: a name with each of its look-alike spellings, names with a
+	// long common prefix, maps of 9..40 names (the order must be ONE order for all of them)
+	{
+		add := func(m commservices.LockMap) { jobs = append(jobs, &orderJob{m: m, rows: c15Rows(m)}) }
+		for _, x := range []string{"a", "res"} {
+			for _, y := range append(c15Aliases(x), x+x) {
+				add(commservices.LockMap{x: rng.Bool(), y: rng.Bool()})
+			}
+		}
+		nShape := 12
+		if tier == "thorough" {
+			nShape = 120
+		}
+		for i := 0; i < nShape; i++ {
+			pool := c15ShapePool(rng, i%2, 3+rng.Intn(3))
+			m := commservices.LockMap{}
+			for _, nm := range pool {
+				m[nm] = rng.Bool()
+			}
+			add(m)
+		}
+		for _, size := range []int{9, 17, 24, 40} {
+			m := commservices.LockMap{}
+			for _, nm := range c15ShapePool(rng, 2, size) {
+				m[nm] = rng.Bool()
+			}
+			add(m)
+		}
 	}
 	{
 		sem := make(chan struct{}, 8)
@@ -434,7 +472,7 @@ func runC15Child(o *Out, rng *RNG, tier string, replay string) {
 
 	// ---------- (ii) stress
 	hung := false
-	stress := func(hot bool) {
+	stress := func(hot bool, shaped []string, holders int) {
 		if hung {
 			return
 		}
@@ -446,24 +484,34 @@ func runC15Child(o *Out, rng *RNG, tier string, replay string) {
 		for k := range pool {
 			names = append(names, k)
 		}
+		if shaped != nil {
+			names = append([]string(nil), shaped...)
+		}
 		sort.Strings(names)
 		n := 2 + rng.Intn(11)
+		if holders > 0 {
+			n = holders
+		}
 		maps := make([]commservices.LockMap, n)
 		durs := make([]int, n)
 		jit := make([]int, n)
 		pctW := []int{15, 40, 70}[rng.Intn(3)]
+		hotW := 80
+		if len(names) > 8 { // large maps: with fewer writers the holders get further before they wait
+			hotW = []int{30, 50, 80}[rng.Intn(3)]
+		}
 		for i := range maps {
 			if hot {
 				maps[i] = commservices.LockMap{}
 				for _, nm := range names {
 					if rng.Chance(75) {
-						maps[i][nm] = rng.Chance(80)
+						maps[i][nm] = rng.Chance(hotW)
 					}
 				}
 				durs[i] = rng.Intn(2)
 				jit[i] = 0
 			} else {
-				maps[i] = c15RandMap(rng, names, 4, pctW)
+				maps[i] = c15RandMap(rng, names, len(names), pctW)
 				switch rng.Intn(4) {
 				case 0:
 					durs[i] = 0
@@ -545,11 +593,28 @@ func runC15Child(o *Out, rng *RNG, tier string, replay string) {
 		o.Stat(fmt.Sprintf("holders_%02d", n))
 		o.AddCase(fmt.Sprintf("CTrace %s %s %s", coqStrList(names), coqList(mapsCoq), c15EventsCoq(tr)), desc, key, contended)
 	}
-	for i := 0; i < nStress; i++ {
-		stress(false)
+	// plain and hot rounds on random 4-name pools, interleaved (so that the Coq shards stay
+	// balanced) with hot and plain rounds on the critical name shapes (look-alikes, long common
+	// prefixes, maps of up to 24 names) and with up to 48 holders
+	shapedRound := func(i int) {
+		switch i % 4 {
+		case 0:
+			stress(true, c15ShapePool(rng, 0, 4), 0)
+		case 1:
+			stress(true, c15ShapePool(rng, 1, 4), 0)
+		case 2:
+			stress(true, c15ShapePool(rng, 2, 10+rng.Intn(15)), 2+rng.Intn(7))
+		default:
+			stress(i%8 == 3, c15ShapePool(rng, rng.Intn(3), 5), 24+rng.Intn(25))
+		}
 	}
-	for i := 0; i < nHot; i++ {
-		stress(true)
+	shapedDone := 0
+	for i := 0; i < nStress+nHot; i++ {
+		stress(i >= nStress, nil, 0)
+		for shapedDone*(nStress+nHot) < (i+1)*nShaped {
+			shapedRound(shapedDone)
+			shapedDone++
+		}
 	}
 
 	// ---------- (ii') no serialisation: compatible families all inside at once
@@ -699,6 +764,17 @@ func runC15Child(o *Out, rng *RNG, tier string, replay string) {
 				o.CountEval(fmt.Sprintf("al2:%q:%q", x, y), true)
 			}
 		}
+	}
+
+	// ---------- (ii-b) bystanders of a parked holder, (ii-c) crowds, (ii-e) first use of a name
+	if !hung {
+		hung = c15Bystander(o, rng.Fork(), nBystander)
+	}
+	if !hung {
+		hung = c15Crowd(o, rng.Fork(), nCrowd)
+	}
+	if !hung {
+		hung = c15FirstUse(o, rng.Fork(), nFirstUse, 6)
 	}
 
 	// ---------- (ii-r) the pipeline runner holds a task's locks around its whole body
